@@ -115,6 +115,11 @@ class C02(Prop):
         out = []
         for c in range(n):
             r = rng.random()
+            if c % 10 == 5:
+                # systematic sweep: every explicit format x every alphabet x every read call, on files whose sequence lines hold
+                # letters / digits / punctuation that some selections must reject (monitor: residues == the file's legal residues)
+                out.append(S.matrix_case(rng, c // 10))
+                continue
             if rng.random() < 0.10:
                 out.append(S.msaseq_case(rng, c))     # a well-formed alignment file read sequentially as sequences (monitor only)
                 continue
@@ -205,7 +210,7 @@ class C02(Prop):
         f = S.basic_line_checks(case, out, Failure)
         if f:
             return f
-        f = S.monitor_msaseq(case, out)
+        f = S.monitor_msaseq(case, out) or S.monitor_matrix(case, out)
         if f:
             return f
         for op, l in zip(case["ops"], out):
